@@ -349,9 +349,12 @@ def run_tool(ctx, tool, files, cats, extra=(), canary_every=0, timeout=3600):
     ncand = 0
     for v in s.get("violations") or []:
         if v["cat"] in cats:
-            v["confirm"] = "tool"
-            v["tool"] = tool
-            v["tool_extra"] = list(extra)
+            if tool == "stress":
+                v["confirm"] = "replay" if v.get("src_cps") else "own"
+            else:
+                v["confirm"] = "tool"
+                v["tool"] = tool
+                v["tool_extra"] = list(extra)
             ctx.candidates.append(v)
             ncand += 1
     ctx.log("jmv %s: %d cases / %d API calls: %d candidate(s) %s; canaries %d/%d" %
